@@ -43,6 +43,7 @@ M = [
  ("C14", "toqito/state_props/log_negativity.py", "np.log2(", "np.log("),
  ("C14", "toqito/state_props/negativity.py", None, None),
  ("C15", "toqito/state_props/in_separable_ball.py", ", \"fro\") <= 1", ", \"fro\") >= 1"),
+ ("C15", "toqito/state_props/is_ppt.py", "return is_positive_semidefinite(partial_transpose(mat, [sys - 1], dim), tol)", "return is_positive_semidefinite(partial_transpose(mat, [sys - 1], dim), tol, 1e-5)"),
  ("C16", "toqito/matrix_props/is_normal.py", None, None),
  ("C16", "toqito/matrix_ops/unvec.py", "mat = vector.reshape(*shape, order=\"F\")", "mat = vector.reshape(*shape)"),
  ("C17", "toqito/states/isotropic.py", "alpha * psi @ psi.conj().T / dim", "alpha * psi @ psi.conj().T / dim**2"),
